@@ -323,6 +323,34 @@ fn value_families(thorough: bool) -> Vec<(String, MetadataWrapper)> {
                 }
             }
         }
+        // round 14: digest maps with one, two and three algorithms the library does not know (it keeps
+        // such names as they are), alone and next to the known ones: no digest may drop out of, or
+        // stand in for another in, the signed form
+        {
+            let (u1, u2, u3) = (HashAlgorithm::Unknown("md5".into()), HashAlgorithm::Unknown("sha1".into()), HashAlgorithm::Unknown("blake2b".into()));
+            let ushapes: Vec<(&str, TargetDescription)> = vec![
+                ("{md5:x}", mk(&[(u1.clone(), &x)])),
+                ("{md5:y}", mk(&[(u1.clone(), &y)])),
+                ("{sha1:x}", mk(&[(u2.clone(), &x)])),
+                ("{sha1:y}", mk(&[(u2.clone(), &y)])),
+                ("{blake2b:x}", mk(&[(u3.clone(), &x)])),
+                ("{md5:x,sha1:x}", mk(&[(u1.clone(), &x), (u2.clone(), &x)])),
+                ("{md5:x,sha1:y}", mk(&[(u1.clone(), &x), (u2.clone(), &y)])),
+                ("{md5:y,sha1:x}", mk(&[(u1.clone(), &y), (u2.clone(), &x)])),
+                ("{md5:y,sha1:y}", mk(&[(u1.clone(), &y), (u2.clone(), &y)])),
+                ("{md5:x,sha1:y,blake2b:x}", mk(&[(u1.clone(), &x), (u2.clone(), &y), (u3.clone(), &x)])),
+                ("{md5:x,sha1:y,blake2b:y}", mk(&[(u1.clone(), &x), (u2.clone(), &y), (u3.clone(), &y)])),
+                ("{md5:x,256:x}", mk(&[(u1.clone(), &x), (HashAlgorithm::Sha256, &x)])),
+                ("{md5:x,256:y}", mk(&[(u1.clone(), &x), (HashAlgorithm::Sha256, &y)])),
+                ("{md5:x,sha1:y,256:x,512:y}", mk(&[(u1.clone(), &x), (u2.clone(), &y), (HashAlgorithm::Sha256, &x), (HashAlgorithm::Sha512, &y)])),
+                ("{md5:y,sha1:x,256:x,512:y}", mk(&[(u1.clone(), &y), (u2.clone(), &x), (HashAlgorithm::Sha256, &x), (HashAlgorithm::Sha512, &y)])),
+            ];
+            for side in ["materials", "products"] {
+                for (n, d) in &ushapes {
+                    out.push((format!("{side} a{n} algorithms the library does not know"), link_of(side, vec![("a", d.clone())])));
+                }
+            }
+        }
         for (na, da) in &shapes[3..] {
             for (nb, db) in &shapes[..4] {
                 for (nc, dc) in &shapes[..4] {
@@ -819,7 +847,7 @@ pub fn run(tier: Tier) -> i32 {
     let _ = KeyId::from_str;
     crate::envprobe::judge(&mut acc, "C05:", &mut c.extra);
     c.acc = acc;
-    c.rule = "(a) metadata values from the field alphabets (every string field x critical and wide strings, splits of one string across adjacent fields, structural near-collisions, thresholds x pubkey lists x key tables, expiry seconds, every rule form in every position, repeated steps / inspections / key ids / rules / arguments, digests of 12 lengths (0 .. 128 bytes) under three algorithm names and with single-byte differences (also past the 64th byte only) in one- and two-algorithm maps, tables of two / three artifacts over 7 digest-map shapes each, key-table entries over one key material with 5 hash-algorithm lists / 2 schemes, 7 key tables as the in-memory API can file them (own ids, swapped, under zeros, under another spelling), strings of 15..1025 (70001) characters) signed with one Ed25519 key: unequal values must give different signatures; canonical encodings of the C10 value grammar pairwise distinct; (b) every single-field edit (incl. every digest byte and every rule token, and for every leaf: strings re-spelled in 18 ways, integers +-1 / negated / +2^8..+2^63 / -2^32, null <-> empty, member removed) of a signed layout and four signed links, for 5 signer sets, must fail verification and pass again when undone. distinct_nontrivial = distinct signed byte strings + distinct canonical encodings + edits that change the parsed value".into();
+    c.rule = "(a) metadata values from the field alphabets (every string field x critical and wide strings, splits of one string across adjacent fields, structural near-collisions, thresholds x pubkey lists x key tables, expiry seconds, every rule form in every position, repeated steps / inspections / key ids / rules / arguments, digests of 12 lengths (0 .. 128 bytes) under three algorithm names and with single-byte differences (also past the 64th byte only) in one- and two-algorithm maps, tables of two / three artifacts over 7 digest-map shapes each, 15 digest maps with one to three algorithm names the library does not know (alone and next to sha256 / sha512), key-table entries over one key material with 5 hash-algorithm lists / 2 schemes, 7 key tables as the in-memory API can file them (own ids, swapped, under zeros, under another spelling), strings of 15..1025 (70001) characters) signed with one Ed25519 key: unequal values must give different signatures; canonical encodings of the C10 value grammar pairwise distinct; (b) every single-field edit (incl. every digest byte and every rule token, and for every leaf: strings re-spelled in 18 ways, integers +-1 / negated / +2^8..+2^63 / -2^32, null <-> empty, member removed) of a signed layout and four signed links, for 5 signer sets, must fail verification and pass again when undone. distinct_nontrivial = distinct signed byte strings + distinct canonical encodings + edits that change the parsed value".into();
     c.bound_completed = format!("critical strings <= {}, wide strings <= {}, split words <= {}", if tier.thorough() { 4 } else { 3 }, if tier.thorough() { 2 } else { 1 }, if tier.thorough() { 4 } else { 3 });
     c.assume("Ed25519 signing by a fixed key is deterministic and collision-free on distinct messages, so equal signatures <=> equal signed bytes");
     c.assume("unequal = PartialEq on the parsed metadata (expiry enumerated at whole seconds)");
